@@ -61,6 +61,18 @@ Record retry_cfg := {
   mult_ge2 : bool          (* backoff_multiplier >= 2.0 *)
 }.
 
+(* impl Default for RetryConfig: max_attempts 3, initial 100 ms, max 5000 ms, multiplier 2.0 *)
+Definition retry_cfg_default : retry_cfg :=
+  {| max_attempts := 3; initial_delay_ms := 100; max_delay_ms := 5000; mult_ge2 := true |}.
+
+(* PaginationConfig and its Default: page_size 100, max_pages None (no limit) *)
+Record pagination_cfg := { page_size : N; max_pages : option N }.
+Definition pagination_cfg_default : pagination_cfg := {| page_size := 100; max_pages := None |}.
+
+(* BatchConfig and its Default: chunk_size 100, parallel false *)
+Record batch_cfg := { chunk_size : nat; parallel : bool }.
+Definition batch_cfg_default : batch_cfg := {| chunk_size := 100; parallel := false |}.
+
 Definition u64_max : N := 18446744073709551615.
 Definition u32_max : N := 4294967295.
 
@@ -322,6 +334,12 @@ Section Paginate.
              (fetch : N -> N -> res (list T * bool) M) : outcome (list T) M * list (N * N) :=
     paginate_loop max_pages page_size fetch fuel 0%N [].
 
+  (* the same, taking the configuration struct as the Rust functions do: the limit is exactly
+     the struct's `max_pages` field - an explicit None is "no limit", no default is substituted *)
+  Definition paginate_cfg (fuel : nat) (c : pagination_cfg)
+             (fetch : N -> N -> res (list T * bool) M) : outcome (list T) M * list (N * N) :=
+    paginate fuel (page_size c) (max_pages c) fetch.
+
   (* helpers/cloud.rs: both are `paginate(config, fetch_page)` *)
   Definition run_paginated_operation := paginate.
   Definition run_cloud_io_paginated := paginate.
@@ -331,5 +349,6 @@ Arguments at_limit max_pages page : simpl nomatch.
 Arguments is_nil {B}.
 Arguments paginate_loop {T M}.
 Arguments paginate {T M}.
+Arguments paginate_cfg {T M}.
 Arguments run_paginated_operation {T M}.
 Arguments run_cloud_io_paginated {T M}.
